@@ -81,7 +81,8 @@ func DrawFileSpec(t *tape.Tape, o FileOpts) FileSpec {
 			csz = 32
 		}
 	case 2:
-		s.Chunker = "size-262144" // the default: single chunk for our sizes
+		// the default chunker under its three spellings: single chunk for our sizes
+		s.Chunker = []string{"size-262144", "", "default"}[csz%3]
 		csz = 262144
 	}
 	s.Width = []int{2, 3, 4, 5, 8, 174}[t.Pick(4, 4, 2, 2, 1, 1)]
